@@ -17,7 +17,7 @@ STUBS = ["random.choice (DrawSet.draw) -> fresh bounded index, forked over the e
 BOUNDS = {
     "quick": "pre-states: every placement of [edge,edge], [tri,edge] on <=4 vertices, each with every assignment of at most 2 optional extra "
              "first-topology motifs to the vertex annotations (window of a larger network); the consistent templates chain2, mixed, star2 (6-7 vertices), "
-             "trideg (5 triangles on 12 vertices, triangle swaps are accepted there) and diamond2pair (two diamonds whose corners mix two edge topologies); one accepted swap (convergence_limit=0), search_limit in {1,2}; <=6 RNG draws; defaults construct",
+             "trideg (5 triangles on 12 vertices, triangle swaps are accepted there) and diamond2pair (two diamonds whose corners mix two edge topologies); one accepted swap (convergence_limit=0), search_limit in {1,2}; <=8 RNG draws; rewire() called twice on one object (template chain2); defaults construct",
     "thorough": "additionally [edge,edge,edge] on 4-5, [tri,tri] on 5 (<=3 extras) and 6, [tri,edge,edge], [tri,tri,edge] on 5 vertices, templates tri4, tri3fan and c4pair (4-cycles), "
                 "two accepted swaps (convergence_limit=1) on chain2 and [edge,edge]; <=9 draws",
 }
@@ -31,7 +31,7 @@ ASSUMPTIONS = ["vertex annotations are either the true motif counts or the true 
                "induction: a clean motif network stays a clean motif network of the same shapes under one accepted swap => under any number",
                "the target has full support (every looked-up pairing has positive weight)"]
 EXPECTED_LABELS = ["input-untouched", "vertices-and-annotations", "no-self-loop", "edge-count", "per-topology-degrees", "motif-shapes", "defaults"]
-DRAW_BUDGET = {"quick": 6, "thorough": 9}
+DRAW_BUDGET = {"quick": 8, "thorough": 10}
 VALIDATE_EVERY = 60
 TIME_LIMIT = {"quick": 900, "thorough": 7200}
 
@@ -44,8 +44,9 @@ def configs(tier):
         cfgs.append({"name": f"{'+'.join(shapes)}-V{V}-conv{conv}-search{search}" + (f"-extras{max_extras}" if extras else ""), "shapes": shapes, "V": V,
                      "conv": conv, "search": search, "kind": "step", "extras": extras, "max_extras": max_extras})
 
-    def tpl(name, conv=0, search=1):
-        cfgs.append({"name": f"template-{name}-conv{conv}-search{search}", "template": name, "conv": conv, "search": search, "kind": "template"})
+    def tpl(name, conv=0, search=1, second=False):
+        cfgs.append({"name": f"template-{name}-conv{conv}-search{search}" + ("-second-rewire" if second else ""), "template": name, "conv": conv,
+                     "search": search, "kind": "template", "second": second})
 
     add(["edge", "edge"], 4)
     add(["edge", "edge"], 3, search=2)
@@ -53,6 +54,7 @@ def configs(tier):
     for t in ("chain2", "trideg", "mixed", "diamond2pair"):
         tpl(t)
     tpl("star2", search=2)
+    tpl("chain2", second=True)  # rewire() called twice on one object: the second result is checked
     cfgs.append({"name": "defaults", "kind": "defaults", "shapes": ["tri", "edge"], "V": 4})
     if not q:
         add(["edge", "edge", "edge"], 4)
@@ -93,6 +95,10 @@ def path(ctx, cfg):
     params = {TN.NETWORK: net, TN.EJKS: target, TN.CONVERGENCE_LIMIT: cfg["conv"], TN.SEARCH_LIMIT: cfg["search"]}
     obj = ctx.guard("constructor-raised", MarkovChainMonteCarloRewiring, params)
     G2 = ctx.guard("rewire-raised", obj.rewire)
+    if cfg.get("second"):
+        first = mc.snapshot(G2)
+        G2 = ctx.guard("rewire-raised", obj.rewire)
+        ctx.require(mc.snapshot(net.G) == before, "input-untouched", f"placement={placement}: the network was modified by the first rewire()")
     same = mc.snapshot(net.G) == before
     ctx.require(same, "input-untouched", f"placement={placement}: rewire() modified the network it was given", twin=(not same))
     mc.check_structure(ctx, cfg, placement, before, G2)
